@@ -96,7 +96,16 @@ HeaderValue(resp, name) ==    \* first value of the (case-insensitively) named h
 
 (* YAML-1.1-style spellings of booleans that lenient readers accept in header text; OpenAPI itself only has true/false *)
 LooseBooleans == {<<121>>, <<121, 101, 115>>, <<110>>, <<110, 111>>, <<111, 110>>, <<111, 102, 102>>, <<116>>, <<102>>, <<49>>, <<48>>}
+RECURSIVE Ascending(_)
+Ascending(S) == IF S = {} THEN <<>> ELSE <<MinOf(S)>> \o Ascending(S \ {MinOf(S)})
+SplitComma(txt) == LET b == Ascending({i \in DOMAIN txt : txt[i] = 44} \cup {0, Len(txt) + 1})
+                   IN [k \in 1..(Len(b) - 1) |-> SubSeq(txt, b[k] + 1, b[k + 1] - 1)]
+(* Header Objects follow the `simple` style (OAS 3.0.3 Header Object; 2.0: collectionFormat csv): an array is its items     *)
+(* separated by commas                                                                                                     *)
 HeaderVerdict(defs, txt, s) ==
+  IF s.sk = "schema" /\ Has(s, "type") /\ s.type = <<"array">>
+  THEN LET parts == SplitComma(txt) IN CoercedV(defs, [t |-> "arr", v |-> [k \in DOMAIN parts |-> [t |-> "str", v |-> parts[k]]]], s, "response")
+  ELSE
   LET v == CoercedD(defs, txt, s, "response")
   IN IF v = "F" /\ s.sk = "schema" /\ Has(s, "type") /\ s.type = <<"boolean">> /\ LowerTxt(txt) \in LooseBooleans THEN "U" ELSE v
 
@@ -111,11 +120,12 @@ Expected(defn, defs, resp) ==
               ELSE CHOOSE j \in matched : \A k \in matched : Specificity(ParseMT(mts[j])) >= Specificity(ParseMT(mts[k]))
       anySchema == g # 0 /\ \E j \in DOMAIN defn.resps[g].schemas : defn.resps[g].schemas[j].has
       (* ---- Content-Type *)
+      docBad == \E j \in DOMAIN mts : ~ParseMT(mts[j]).ok          \* the documentation itself is malformed: nothing is decided
       cMissing == IF resp.ct.present THEN "F" ELSE IF mts # <<>> THEN "T"
                   ELSE IF anySchema THEN "U" ELSE "F"          \* a body is documented, but no media type: not decided
-      cMalformed == IF ~resp.ct.present THEN "F" ELSE IF ct.ok THEN "F" ELSE IF mts # <<>> THEN "T" ELSE "U"
+      cMalformed == IF ~resp.ct.present THEN "F" ELSE IF docBad THEN "U" ELSE IF ct.ok THEN "F" ELSE IF mts # <<>> THEN "T" ELSE "U"
       cUndefined == IF mts = <<>> \/ ~resp.ct.present THEN "F"
-                    ELSE IF ~ct.ok THEN "U"             \* reported as malformed; whether also as undocumented is open
+                    ELSE IF ~ct.ok \/ docBad THEN "U"   \* reported as malformed; whether also as undocumented is open
                     ELSE IF matched = {} THEN "T" ELSE "F"
       none == [k \in Kinds |-> "F"]
   IN IF g = 0 THEN [none EXCEPT !["UndefinedStatusCode"] = "T", !["MissingContentType"] = cMissing,
@@ -133,8 +143,8 @@ Expected(defn, defs, resp) ==
       (* ---- body: the schema documented for THIS key and THIS media type *)
       sch == IF defn.dialect = "2.0" THEN r.schemas[1]               \* 2.0: one schema per response, whatever the media type
              ELSE IF best # 0 THEN r.schemas[best] ELSE [has |-> FALSE]
-      decidable == \/ defn.dialect = "2.0" /\ (resp.ct.present /\ ct.ok)
-                   \/ defn.dialect # "2.0" /\ best # 0
+      decidable == \/ defn.dialect = "2.0" /\ (resp.ct.present /\ ct.ok) /\ ~docBad
+                   \/ defn.dialect # "2.0" /\ best # 0 /\ ~docBad
       verdict == IF resp.body.kind = "json" THEN Valid(defs, sch.s, resp.body.v, "response") ELSE "U"
       bJson == IF nSchemas = 0 THEN "F"                               \* nothing documented about the body
                ELSE IF ~decidable THEN "U"                            \* which schema applies is not determined
@@ -186,17 +196,30 @@ Sub(dialect, byRef, name, s) == IF byRef THEN RefTo(dialect, name) ELSE s
 PObjNullProp(d, rs) == [sk |-> "schema", type |-> <<"object">>, required |-> <<Ta>>,
                         props |-> [k |-> <<Ta>>, v |-> <<Sub(d, rs, "NullInt", PNullInt)>>]]
 PArr(d, rs) == [sk |-> "schema", type |-> <<"array">>, items |-> Sub(d, rs, "ObjId", PObjId)]
-Names(d) == IF d = "2.0" THEN <<"ObjId", "ObjName", "NullInt", "Str", "ObjNullProp", "Arr">>
-            ELSE <<"ObjId", "ObjName", "NullInt", "ObjWO", "Str", "ObjNullProp", "ObjWO2", "Arr">>
+Tnext == <<110, 101, 120, 116>>
+WOStr == [sk |-> "schema", type |-> <<"string">>, writeOnly |-> TRUE]
+PObjWOReq == [sk |-> "schema", type |-> <<"object">>, required |-> <<Tid, Tpw>>,            \* a REQUIRED writeOnly property
+              props |-> [k |-> <<Tid, Tpw>>, v |-> <<TInt, WOStr>>]]
+PObjOnlyWO == [sk |-> "schema", type |-> <<"object">>, props |-> [k |-> <<Tpw>>, v |-> <<WOStr>>]]   \* nothing but writeOnly
+PStrPat == [sk |-> "schema", type |-> <<"string">>, minLength |-> 2, maxLength |-> 3,          \* ^[a-z]+$ with length bounds
+            pattern |-> [k |-> "cat", as |-> TRUE, ae |-> TRUE, atoms |-> <<[cls |-> <<<<97, 122>>>>, neg |-> FALSE, min |-> 1, max |-> -1]>>]]
+PNode(d) == [sk |-> "schema", type |-> <<"object">>, required |-> <<Tid>>,                     \* recursive through an optional property
+             props |-> [k |-> <<Tid, Tnext>>, v |-> <<TInt, RefTo(d, "Node")>>]]
+(* 3.1 treats writeOnly as an annotation of JSON Schema 2020-12: the writeOnly schemas are left out there *)
+Names(d) == IF d = "3.0" THEN <<"ObjId", "ObjName", "NullInt", "ObjWO", "Str", "ObjNullProp", "ObjWO2", "Arr", "ObjWOReq", "StrPat", "ObjOnlyWO", "Node", "None">>
+            ELSE <<"ObjId", "ObjName", "NullInt", "Str", "ObjNullProp", "Arr", "StrPat", "Node", "None">>
 ByName(d, rs, n) == CASE n = "ObjId" -> PObjId [] n = "ObjName" -> PObjName [] n = "NullInt" -> PNullInt
                       [] n = "ObjWO" -> PObjWO [] n = "Str" -> TStr [] n = "ObjNullProp" -> PObjNullProp(d, rs)
                       [] n = "ObjWO2" -> PObjWO2 [] n = "Arr" -> PArr(d, rs)
+                      [] n = "ObjWOReq" -> PObjWOReq [] n = "ObjOnlyWO" -> PObjOnlyWO [] n = "StrPat" -> PStrPat [] n = "Node" -> PNode(d)
+                      [] n = "None" -> [sk |-> "true"]
 DefsOf(d, rs) == LET ns == Names(d) IN
   [x \in {RefTo(d, ns[i]).ref : i \in DOMAIN ns} \cup {"nodefs"} |->
      IF x = "nodefs" THEN [sk |-> "opaque"] ELSE ByName(d, rs, ns[CHOOSE i \in DOMAIN ns : RefTo(d, ns[i]).ref = x])]
 (* schema of (key position i, media position j): rotation through the pool, so different keys / media types differ *)
 SchemaAt(d, rs, base, i, j) == LET ns == Names(d) n == ns[((base + 2 * (i - 1) + (j - 1)) % Len(ns)) + 1]
-                               IN [has |-> TRUE, name |-> n, s |-> Sub(d, rs, n, ByName(d, rs, n))]
+                               IN IF n = "None" THEN [has |-> FALSE, name |-> "-"]      \* no schema documented here
+                                  ELSE [has |-> TRUE, name |-> n, s |-> Sub(d, rs, n, ByName(d, rs, n))]
 
 Str1(t) == [t |-> "str", v |-> t]
 Int1(n) == [t |-> "int", v |-> n]
@@ -204,9 +227,14 @@ Obj(ks, vs) == [t |-> "obj", k |-> ks, v |-> vs]
 BodyValues == << Obj(<<Tid>>, <<Int1(1)>>), Obj(<<Tname>>, <<Str1(Ta)>>), Obj(<<Tid>>, <<Str1(Ta)>>), [t |-> "null"], Int1(3),
                  Obj(<<Tid, Tpw>>, <<Int1(1), Str1(Ta)>>), Str1(Ta), Obj(<<Ta>>, <<[t |-> "null"]>>),
                  Obj(<<Tid, Tp1>>, <<Int1(1), Str1(Ta)>>), [t |-> "arr", v |-> <<Obj(<<Tid>>, <<Int1(1)>>)>>],
-                 [t |-> "arr", v |-> <<Obj(<<Tid>>, <<Str1(Ta)>>)>>], Obj(<<>>, <<>>) >>
+                 [t |-> "arr", v |-> <<Obj(<<Tid>>, <<Str1(Ta)>>)>>], Obj(<<>>, <<>>),
+                 Str1(Vab), Str1(Vabcd), Obj(<<Tpw>>, <<Str1(Ta)>>),
+                 Obj(<<Tid, Tnext>>, <<Int1(1), Obj(<<Tid>>, <<Int1(2)>>)>>), Obj(<<Tid, Tnext>>, <<Int1(1), Obj(<<Tid>>, <<Str1(Ta)>>)>>) >>
 Bodies == {[kind |-> "json", v |-> BodyValues[i]] : i \in DOMAIN BodyValues}
             \cup {[kind |-> "malformed", txt |-> TBrokenJson], [kind |-> "empty"]}
+(* quick: the slices about keys and media types keep to the first 12 JSON bodies; the schema-rotation slice uses all *)
+BodiesOf(sl) == IF Thorough \/ sl \notin {"keys", "media"} THEN Bodies
+                ELSE {[kind |-> "json", v |-> BodyValues[i]] : i \in 1..12} \cup {[kind |-> "malformed", txt |-> TBrokenJson], [kind |-> "empty"]}
 FewBodies == {[kind |-> "json", v |-> BodyValues[1]], [kind |-> "empty"]}
 
 HRate == [name |-> NRate, required |-> TRUE,
@@ -214,8 +242,20 @@ HRate == [name |-> NRate, required |-> TRUE,
 HTag == [name |-> NTag, required |-> FALSE,
          schema |-> [has |-> TRUE, s |-> [sk |-> "schema", type |-> <<"string">>, maxLength |-> 3]]]
 HFlag == [name |-> NFlag, required |-> TRUE, schema |-> [has |-> TRUE, s |-> [sk |-> "schema", type |-> <<"boolean">>]]]
-HeaderCfgs == << <<>>, <<HRate>>, <<HRate, HTag>>, <<HFlag>>, <<HTag>> >>
-ValuesOf(h) == IF h.name = NRate THEN {V5, V50, Vabc} ELSE IF h.name = NTag THEN {Vab, Vabcd} ELSE {Vtrue, Vmaybe, Vyes}
+NNum == <<88, 45, 78, 117, 109>>        \* X-Num
+NAny == <<88, 45, 65, 110, 121>>        \* X-Any
+NIds == <<88, 45, 73, 100, 115>>        \* X-Ids
+HNum == [name |-> NNum, required |-> FALSE, schema |-> [has |-> TRUE, s |-> [sk |-> "schema", type |-> <<"number">>, maximum |-> 10]]]
+HAny == [name |-> NAny, required |-> FALSE, schema |-> [has |-> TRUE, s |-> [sk |-> "schema", maxLength |-> 3]]]          \* no `type`
+HIds == [name |-> NIds, required |-> TRUE,
+         schema |-> [has |-> TRUE, s |-> [sk |-> "schema", type |-> <<"array">>, items |-> [sk |-> "schema", type |-> <<"integer">>]]]]
+HeaderCfgs == << <<>>, <<HRate>>, <<HRate, HTag>>, <<HFlag>>, <<HTag>>, <<HNum>>, <<HIds>>, <<HAny>> >>
+V5p5 == <<53, 46, 53>>
+V1c2 == <<49, 44, 50>>                  \* 1,2
+V1cx == <<49, 44, 120>>                 \* 1,x
+ValuesOf(h) == IF h.name = NRate THEN {V5, V50, Vabc} ELSE IF h.name = NTag THEN {Vab, Vabcd}
+               ELSE IF h.name = NNum THEN {V5, V50, Vabc, V5p5} ELSE IF h.name = NAny THEN {Vab, Vabcd}
+               ELSE IF h.name = NIds THEN {V1c2, V1cx, V5} ELSE {Vtrue, Vmaybe, Vyes}
 (* Swagger 2.0 Header Objects have no `required` *)
 HeadersFor(d, cfg) == [i \in DOMAIN cfg |-> IF d = "2.0" THEN [cfg[i] EXCEPT !.required = FALSE] ELSE cfg[i]]
 LowerFirst(t) == [i \in DOMAIN t |-> Lower(t[i])]
@@ -234,7 +274,10 @@ KeysOf(S, lowerX, rev) ==
   LET idx == SortedSeq(S)
       ks == [i \in DOMAIN idx |-> IF lowerX THEN LowerTxt(KeyPool[idx[i]]) ELSE KeyPool[idx[i]]]
   IN IF rev THEN [i \in DOMAIN ks |-> ks[Len(ks) + 1 - i]] ELSE ks
-MtCfgs == << <<>>, <<MTJson>>, <<MTJson, MTPJson>>, <<MTText, MTJson>>, <<MTJson, MTText>>, <<MTPJson, MTJson>> >>
+MTAppAny == <<97, 112, 112, 108, 105, 99, 97, 116, 105, 111, 110, 47, 42>>       \* application/*
+MTAny == <<42, 47, 42>>                                                        \* */*
+MtCfgs == << <<>>, <<MTJson>>, <<MTJson, MTPJson>>, <<MTText, MTJson>>, <<MTJson, MTText>>, <<MTPJson, MTJson>>,
+             <<MTAppAny>>, <<MTAny>>, <<MTAny, MTJson>>, <<TBadMT>> >>
 
 (* one definition descriptor; `id` identifies it in the export *)
 Mk(d, S, lowerX, rev, m, base, h, refResp, refSchema, refHeader, slice) ==
@@ -250,6 +293,7 @@ Mk(d, S, lowerX, rev, m, base, h, refResp, refSchema, refHeader, slice) ==
                     headers |-> HeadersFor(d, HeaderCfgs[h])]]]
 
 Dialects == {"3.0", "2.0"}
+Dialects3 == {"3.0", "2.0", "3.1"}
 Defns ==
   (* keys: every key set, two media types with different schemas (3.0) / one schema (2.0) *)
   {Mk(d, S, FALSE, FALSE, IF d = "2.0" THEN 2 ELSE 3, 0, 1, FALSE, FALSE, FALSE, "keys") :
@@ -258,18 +302,23 @@ Defns ==
        d \in Dialects, lx \in BOOLEAN, rv \in BOOLEAN, S \in {{3}, {1, 3}, {3, 6}, {1, 3, 6}, {4, 5, 6}}}
   (* media types *)
   \cup {Mk(d, S, FALSE, FALSE, m, b, 1, FALSE, FALSE, FALSE, "media") :
-       d \in Dialects, S \in {{1}, {3, 6}}, m \in 1..6, b \in IF Thorough THEN 0..7 ELSE {0, 3}}
+       d \in Dialects, S \in {{1}, {3, 6}}, m \in 1..6, b \in IF Thorough THEN 0..12 ELSE {0, 3}}
+  \cup {Mk(d, S, FALSE, FALSE, m, b, 1, FALSE, FALSE, FALSE, "media") :          \* wildcard ranges, a malformed documented media type
+       d \in Dialects, S \in {{1}, {3, 6}}, m \in 7..10, b \in IF Thorough THEN 0..12 ELSE {0}}
   (* schema rotation (nullable, writeOnly, nested references) and references *)
   \cup {Mk(d, S, FALSE, FALSE, IF d = "2.0" THEN 2 ELSE 3, b, 1, rr, rs, FALSE, "refs") :
-       d \in Dialects, S \in IF Thorough THEN {{1}, {1, 6}, {3}, {2, 3, 6}} ELSE {{1, 6}, {3}},
-       b \in IF Thorough THEN 0..7 ELSE {0, 2, 4, 6}, rr \in BOOLEAN, rs \in BOOLEAN}
+       d \in Dialects3, S \in IF Thorough THEN {{1}, {1, 6}, {3}, {2, 3, 6}} ELSE {{1, 6}, {3}},
+       b \in IF Thorough THEN 0..12 ELSE {0, 2, 4, 6, 8, 10, 12}, rr \in BOOLEAN, rs \in BOOLEAN}
   (* headers *)
-  \cup {Mk(d, S, FALSE, FALSE, 2, 0, h, rr, FALSE, rh, "headers") :
-       d \in Dialects, S \in IF Thorough THEN {{1}, {3}, {6}, {1, 3, 6}, {4, 5}} ELSE {{1}, {3}, {1, 3, 6}},
-       h \in 2..5, rr \in IF Thorough THEN BOOLEAN ELSE {FALSE}, rh \in BOOLEAN}
+  \cup {D \in {Mk(d, S, FALSE, FALSE, 2, 0, h, rr, FALSE, rh, "headers") :
+                d \in Dialects, S \in IF Thorough THEN {{1}, {3}, {6}, {1, 3, 6}, {4, 5}} ELSE {{1}, {3}, {1, 3, 6}},
+                h \in 2..8, rr \in IF Thorough THEN BOOLEAN ELSE {FALSE}, rh \in BOOLEAN} :
+          \* a Swagger 2.0 Header Object must have a `type`
+          ~(D.dialect = "2.0" /\ \E i \in DOMAIN D.resps[1].headers : ~Has(D.resps[1].headers[i].schema.s, "type"))}
 
 Statuses == {200, 201, 204, 404, 500}
-CtOptions == {"absent", "doc1", "doc2", "undoc", "malformed", "params", "upper"}
+CtOptions == {"absent", "doc1", "doc2", "undoc", "malformed", "params", "upper", "quoted", "json"}
+TQuoted == <<59, 32, 112, 114, 111, 102, 105, 108, 101, 61, 34, 97, 59, 98, 34>>         \* ; profile="a;b"  (a quoted-string with a semicolon)
 Upper(c) == IF c >= 97 /\ c <= 122 THEN c - 32 ELSE c
 CtText(defn, o) ==
   LET m1 == IF Len(defn.mts) >= 1 THEN defn.mts[1] ELSE MTJson
@@ -280,6 +329,8 @@ CtText(defn, o) ==
        [] o = "undoc" -> [present |-> TRUE, txt |-> MTXml]
        [] o = "malformed" -> [present |-> TRUE, txt |-> TBadMT]
        [] o = "params" -> [present |-> TRUE, txt |-> m1 \o TCharset]
+       [] o = "quoted" -> [present |-> TRUE, txt |-> m1 \o TQuoted]
+       [] o = "json" -> [present |-> TRUE, txt |-> MTJson]
        [] o = "upper" -> [present |-> TRUE, txt |-> [i \in DOMAIN m2 |-> Upper(m2[i])] \o TCharset]
 StatusesOf(sl) == IF Thorough \/ sl \in {"keys", "headers"} THEN Statuses ELSE IF sl = "media" THEN {200, 404} ELSE {200, 500}
 CtOptionsOf(sl) == IF Thorough \/ sl = "media" THEN CtOptions ELSE {"doc1", "doc2"}
@@ -288,7 +339,7 @@ Resps(d) ==
   THEN {[status |-> s, ct |-> CtText(d, o), hdrs |-> hs, body |-> b] :
           s \in Statuses, o \in {"doc1", "absent"}, b \in FewBodies, hs \in HeaderSendings(d.resps[1].headers)}
   ELSE {[status |-> s, ct |-> CtText(d, o), hdrs |-> <<>>, body |-> b] :
-          s \in StatusesOf(d.slice), o \in CtOptionsOf(d.slice), b \in Bodies}
+          s \in StatusesOf(d.slice), o \in CtOptionsOf(d.slice), b \in BodiesOf(d.slice)}
 
 (* ------------------------------------------------------------------ machine *)
 VARIABLES defn, resp, exp
